@@ -330,7 +330,7 @@ ECS_NEG = [("MC_NegEcsQuery.cfg", "RefreshOfSharedCarriesNoClientSubnet"), ("MC_
            ("MC_NegEcsServe.cfg", "ServedWithinScope")]
 
 
-def run_ecs_refresh(ctx, judge, variants=("everyone", "allowlist"), model=True):
+def run_ecs_refresh(ctx, judge, variants=("everyone", "allowlist", "scoped-msg", "scoped-raw"), model=True):
     """An ECS client claims the refresh of a SHARED entry (the audience property, C19).
 
     Model: Prefetch.tla with the refresh request's ECS as state -- MC_EcsFixed (KeepClientEcs = FALSE: the option is
@@ -357,6 +357,8 @@ def run_ecs_refresh(ctx, judge, variants=("everyone", "allowlist"), model=True):
     ctx.take_driver_result(res, "[prefetch ecs] ")
     if res.get("skipped"):
         raise vf.MachineryError("prefetch ECS scenario could not run: %s" % res["skipped"][:3])
+    if any(v.startswith("scoped") and not cnt.get("scoped_hit_" + v) for v in variants):
+        raise vf.MachineryError("prefetch ECS scenario: the second query of a scoped variant was not a cache hit (vacuous): %s" % cnt)
     if cnt.get("variants", 0) != len(variants) or any(not cnt.get("refresh_ran_" + v) for v in variants):
         raise vf.MachineryError("prefetch ECS scenario: the refresh did not run in every variant (vacuous): %s" % cnt)
     if not judge:
